@@ -14,11 +14,20 @@
 #include <random>
 #include <sstream>
 
+#include <dlfcn.h>
+#include <pthread.h>
+
 namespace hv
 {
 long    g_live     = 0;
 long    g_live_min = 0;
 int64_t g_now      = 0;
+/// lock-entry skew (cfg option skew=1): a call is entered with the clock still at the previous call's
+/// reading and the clock jumps to the call's own reading when the container's mutex is acquired, as if
+/// the calling thread had been blocked on the lock for that long
+bool    g_skew_armed = false;
+int64_t g_lock_now   = 0;
+long    g_skew_fired = 0;
 static unsigned g_seed = 12345;
 } // namespace hv
 
@@ -37,6 +46,19 @@ steady_clock::time_point steady_clock::now() noexcept
 } // namespace chrono
 random_device::result_type random_device::_M_getval() { return hv::g_seed; }
 } // namespace std
+
+extern "C" int pthread_mutex_lock(pthread_mutex_t* m)
+{
+    using fn_t        = int (*)(pthread_mutex_t*);
+    static fn_t real = reinterpret_cast<fn_t>(dlsym(RTLD_NEXT, "pthread_mutex_lock"));
+    int         rc   = real(m);
+    if (hv::g_skew_armed)
+    {
+        if (hv::g_now != hv::g_lock_now) ++hv::g_skew_fired;
+        hv::g_now = hv::g_lock_now;
+    }
+    return rc;
+}
 
 namespace hv
 {
@@ -86,6 +108,7 @@ static std::string show_opt(const std::optional<uint64_t>& o) { return o.has_val
 struct Rec
 {
     int64_t                  now;
+    int64_t                  entry = -1; // clock reading at call entry when skewed (-1: same as now)
     std::vector<std::string> t; // op tokens
 };
 
@@ -93,7 +116,10 @@ struct Rec
 static std::string exec(IC& c, const Rec& r)
 {
     const auto& t = r.t;
-    g_now         = r.now;
+    g_now         = r.entry >= 0 ? r.entry : r.now;
+    g_lock_now    = r.now;
+    g_skew_armed  = r.entry >= 0;
+    struct Disarm { ~Disarm() { g_skew_armed = false; g_now = g_lock_now; } } disarm;
     const auto& o = t[0];
     if (o == "ins") return c.insert(u64(t[1]), u64(t[2]), allow_of(t[3]), u64(t[4])) ? "b1" : "b0";
     if (o == "insr" || o == "insi")
@@ -205,6 +231,7 @@ int main(int argc, char** argv)
                 else if (t[i].rfind("lf=", 0) == 0) cfg.lf = std::strtof(t[i].c_str() + 3, nullptr);
                 else if (t[i].rfind("val=", 0) == 0) cfg.val = t[i][4];
                 else if (t[i].rfind("seed=", 0) == 0) g_seed = (unsigned)u64(t[i].substr(5));
+                else if (t[i].rfind("skew=", 0) == 0) cfg.skew = t[i][5] == '1';
             }
             // the outcomes rr's do_prune will draw: a fresh distribution over [0, cap-1] per eviction,
             // from an mt19937 seeded with the pinned random_device value
@@ -240,6 +267,7 @@ int main(int argc, char** argv)
                 g_now = r.now;
                 in.c  = make(cfg);
             }
+            if (cfg.skew && cfg.ts && !in.hist.empty()) r.entry = in.hist.back().now;
             std::string res = exec(*in.c, r);
             in.hist.push_back(r);
             size_t sz = in.c->size();
@@ -271,6 +299,7 @@ int main(int argc, char** argv)
         {
             insts.clear();
             out += "x live " + std::to_string(g_live) + " " + std::to_string(g_live_min) + "\n";
+            if (g_skew_fired) { std::fprintf(stderr, "@skew %ld\n", g_skew_fired); g_skew_fired = 0; }
             out += "end\n";
             std::fwrite(out.data(), 1, out.size(), stdout);
             out.clear();
